@@ -30,6 +30,8 @@ def run(ctx):
             monitor_failures(ctx, s['monitor_failures'], findings, 'h_memo monitor', rp)
     if cargo_repo_bins(ctx, ('sccache', 'sccache-dist')):
         res = sysmon.st.run_swap_histories(sysmon.sysroot(ctx, 'c12'), 'c12', ctx.seed * 23, 4 if ctx.quick() else 40, 10 if ctx.quick() else 25)
+        res2 = sysmon.st.run_swap_during_detection(sysmon.sysroot(ctx, 'c12d'), 'c12d', 1.5 if ctx.quick() else 4)
+        sysmon.feed(ctx, res2, findings, 'system swap during detection')
         sysmon.feed(ctx, res, findings, 'system compiler swaps')
     ctx.rules.append('h_memo: histories of 2-7 requests with the file at the compiler path replaced (4 contents x 3 mtimes, incl. restored mtimes), touched or left alone; non-trivial = content swaps; '
                      'h_memo phase 2: gcc / g++ / cc as links to one multicall wrapper and a different file called gcc, requested in random order on one server: every request keyed as on a fresh server (memoisation is transparent); system: 3 wrapper compilers swapped by copy+fresh mtime or symlink retargeting between requests on a live server')
